@@ -379,6 +379,14 @@ def k5_applies(m, op, exc_name):
     return isinstance(_enc_query(m, op), pd.Series)
 
 
+def k6_applies(m, op, exc):
+    """classifier of known finding K6: Radius / LSHNearest configured with no_nhood_prob_of_arm, arms added or removed since
+    (the list can no longer be matched with the arms), predict on a row without neighbours -> ValueError from numpy's choice"""
+    probs = getattr(m._imp, "no_nhood_prob_of_arm", None)
+    return (op.get("op") == "predict" and type(exc).__name__ == "ValueError" and "same size" in str(exc)
+            and probs is not None and len(probs) != len(m.arms))
+
+
 def apply_op(m, op):
     """drive one public call described by a literal op dict; returns the canonical result"""
     k = op["op"]
@@ -456,7 +464,7 @@ def run_ops(m, ops, stop_on_exc=False):
         try:
             out.append(apply_op(m, op))
         except Exception as e:  # noqa: BLE001
-            out.append(["EXC", type(e).__name__])
+            out.append(["EXC", type(e).__name__] + (["K6"] if k6_applies(m, op, e) else []))
             if stop_on_exc:
                 break
     return out
